@@ -1418,6 +1418,10 @@ class Scheduler:
                 # to our detected duplicate expression `expr`.
                 if isinstance(expr2, TaskExpression):
                     expr.call_hash = expr2.call_hash  # ty: ignore[unresolved-attribute]
+                    if isinstance(expr2, SchedulerExpression):
+                        # Scheduler tasks have no CallNode of their own, dataflow passes
+                        # through their (evaluated) upstream expressions.
+                        expr._upstreams = expr2._upstreams
                 elif isinstance(expr2, SimpleExpression):
                     expr._upstreams = expr2._upstreams
                 else:
